@@ -73,7 +73,9 @@ def autocorr_1d_float(data):
     if nxy == 0:
         return result
 
-    A = nxy * Sxy - Sx_ * Sy_
+    # nx * ny * Sum((Xi - mean(X)) * (Yi - mean(Y))) over tuples where both are valid,
+    # mean(X), mean(Y) being the means of the valid cells of each vector
+    A = (nx * ny) * Sxy - ny * Sx * Sy_ - nx * Sy * Sx_ + nxy * Sx * Sy
 
     # var(X[np.isfinite(X)]) Vairance of X excluding missing values
     var_X = nx * Sxx - Sx * Sx
@@ -81,8 +83,9 @@ def autocorr_1d_float(data):
 
     # var(X) where missing values were replaced with mean,
     #   i.e. X[X==nodata] = mean(X[X!=nodata])
-    var_X = var_X * nx / N
-    var_Y = var_Y * ny / N
+    #   (scaled by the same nx * ny as A; the common factor 1/N cancels)
+    var_X = var_X * nx
+    var_Y = var_Y * ny
 
     if var_X < 1e-8 or var_Y < 1e-8:
         return result
@@ -155,7 +158,14 @@ def autocorr_1d_int(data, nodata):
     if nxy == 0:
         return result
 
-    A = nxy * float64(Sxy) - float64(Sx_) * float64(Sy_)
+    # nx * ny * Sum((Xi - mean(X)) * (Yi - mean(Y))) over tuples where both are valid,
+    # mean(X), mean(Y) being the means of the valid cells of each vector
+    A = (
+        float64(nx * ny) * float64(Sxy)
+        - ny * float64(Sx) * float64(Sy_)
+        - nx * float64(Sy) * float64(Sx_)
+        + nxy * float64(Sx) * float64(Sy)
+    )
 
     # var(X[np.isfinite(X)]) Vairance of X excluding missing values
     var_X = nx * float64(Sxx) - float64(Sx) * float64(Sx)
@@ -163,8 +173,9 @@ def autocorr_1d_int(data, nodata):
 
     # var(X) where missing values were replaced with mean,
     #   i.e. X[X==nodata] = mean(X[X!=nodata])
-    var_X = var_X * nx / N
-    var_Y = var_Y * ny / N
+    #   (scaled by the same nx * ny as A; the common factor 1/N cancels)
+    var_X = var_X * nx
+    var_Y = var_Y * ny
 
     if var_X < 1e-8 or var_Y < 1e-8:
         return result
